@@ -6,10 +6,11 @@ benign refactoring must leave all checks at exit 0.  Works on scratch copies of
 <repo>/src (outside /repo and /verif); prints one line per case.
 usage: tools_regress.py [--jobs 16] [--repo /repo]
 """
-import glob, json, os, shutil, subprocess, sys, tempfile
+import glob, json, os, re, shutil, subprocess, sys, tempfile
 from concurrent.futures import ThreadPoolExecutor
 VERIF = os.path.dirname(os.path.abspath(__file__))
 PROPS = [f"C{n:02d}" for n in range(1, 21)]
+RULES = {}
 
 def run_case(case, repo):
     name, patch, own = case
@@ -19,12 +20,14 @@ def run_case(case, repo):
         res = subprocess.run(["patch", "-p1", "-s", "-i", patch], cwd=tmp, capture_output=True, text=True)
         if res.returncode != 0:
             return name, "STALE", res.stdout[-200:]
-        fired = {}
-        for pid in (PROPS if own is None else PROPS):
+        fired, rules = {}, {}
+        for pid in PROPS:
             env = dict(os.environ, VERIF_EVIDENCE_DIR=os.path.join(tmp, "ev"))
             r = subprocess.run(["/venv/bin/python", os.path.join(VERIF, "sa", "check.py"), pid, "--repo", tmp], capture_output=True, text=True, env=env, timeout=300)
             if r.returncode != 0:
                 fired[pid] = r.returncode
+                rules[pid] = sorted(set(re.findall(r"^  (C\d\d-R\d+) at ", r.stdout, re.M)))
+        RULES[name] = rules
         if own is None:
             return name, ("ok" if not fired else "FALSE-ALARM"), fired
         return name, ("ok" if fired.get(own) == 1 else "MISSED"), fired
@@ -49,6 +52,10 @@ def main():
             bad += 1
         print(f"{name:18s} {status:12s} {fired}")
     print(f"regression: {len(results)} cases, {len(results) - bad} ok, {bad} not ok")
+    if repo == "/repo":
+        summary = {name: {"status": status, "exit_codes": fired, "rules": RULES.get(name, {})} for name, status, fired in results}
+        with open(os.path.join(VERIF, "seeded", "regress_last.json"), "w") as f:
+            json.dump(summary, f, indent=1, sort_keys=True)
     return 1 if bad else 0
 
 if __name__ == "__main__":
